@@ -31,6 +31,7 @@ impl NdjsonOut {
     pub fn emit(&mut self, v: &serde_json::Value) {
         serde_json::to_writer(&mut self.w, v).unwrap();
         self.w.write_all(b"\n").unwrap();
+        self.w.flush().unwrap();
     }
     pub fn flush(&mut self) {
         self.w.flush().unwrap();
